@@ -19,6 +19,7 @@ import PolyplyVerif.Generated.Top
 import PolyplyVerif.Model.TopParse
 import PolyplyVerif.Proofs.TopParse
 import PolyplyVerif.Proofs.C08Flatten
+import PolyplyVerif.Proofs.C08FlattenConv
 
 namespace PolyplyVerif.C08
 open PolyplyVerif PolyplyVerif.TopParse PolyplyVerif.Proofs.TopParse PolyplyVerif.Proofs.C08Flatten
@@ -131,6 +132,19 @@ example : errOf (readSingle ["#define WATER", "#ifndef WATER", "#error needs wat
 
 /-! ### the flattening theorem -/
 
+def fsGood : FS :=
+  [(["run", "system.top"], ["#define FLEXIBLE", "#include \"../ff/forcefield.itp\"", "#ifdef HEAVY", "#error no heavy hydrogens",
+                            "#endif", "[ moleculetype ]", "MOL1 1", "[ atoms ]", "1 CT 1 RES A1 1", "#ifdef FLEXIBLE",
+                            "[ bonds ]", "#endif", "#include \"../mols/water.itp\"", "[ system ]", "title",
+                            "[ molecules ]", "SOL 2", "MOL1 1", "SOL 1"]),
+   (["ff", "forcefield.itp"], ["[ defaults ]", "1 2 yes 0.5 0.8333", "#ifdef FLEXIBLE", "#include \"sub/flex.itp\"", "#else",
+                               "#include \"sub/rigid.itp\"", "#endif", "[ atomtypes ]", "CT 12.011 0.0 A 0.35 0.276"]),
+   (["ff", "sub", "flex.itp"], ["[ bondtypes ]", "CT CT 1 0.153 224262.4", "#include \"./common.itp\""]),
+   (["ff", "sub", "rigid.itp"], ["[ constrainttypes ]", "CT CT 1 0.153"]),
+   (["ff", "sub", "common.itp"], ["[ angletypes ]", "CT CT CT 1 112.7 488.273"]),
+   (["mols", "water.itp"], ["[ moleculetype ]", "SOL 2", "[ atoms ]", "1 OW 1 SOL OW 1", "[ settles ]", "1 1 0.1 0.16"])]
+
+
 /-- **Reading an include tree = reading its flattened text**, for every WELL-FORMED tree (`wellFormed`, a
 purely syntactic scan defined in `Model/TopParse.lean`): any number of files, any include depth and tree shape,
 repeated includes, conditionals around includes / type lines / `#error`, `#define` before and after use,
@@ -160,6 +174,69 @@ theorem C08_flatten_equiv_partial (fs : FS) (top : Path) (st : FlatSt) (gt : Glo
     ∃ gf, readSingle st.out = .ok gf ∧ ObsEq gt gf :=
   (flatten_equiv fs top st gt hwf hfl hrt).2
 
+/-- Converse, with no extra hypothesis: if the flattened text of a well-formed tree is read, then the tree is
+read — or the tree reader stops with one of the two errors of a malformed moleculetype NAME line
+(`isNameErr`: "moleculetype-line", "moleculetype-without-name").  That error is the only one the tree reports
+earlier than the flattened text (when the FILE containing the moleculetype ends, not at the very end). -/
+theorem C08_flatten_equiv_conv_partial (fs : FS) (top : Path) (st : FlatSt) (gf : Glob)
+    (hwf : wellFormed fs top = true) (hfl : flatten fs top = .ok st) (hrs : readSingle st.out = .ok gf) :
+    (∃ gt, readTop fs top = .ok gt) ∨ (∃ e, readTop fs top = .error e ∧ isNameErr e = true) :=
+  flatten_equiv_conv fs top st gf hwf hfl hrs
+
+/-- **Reading a well-formed include tree ⇔ reading its flattened text**, as an iff on success plus equality of
+the observables, under `wellFormed` and the decidable side condition `noMalformedMolNames` (the tree reader does
+not stop on a malformed moleculetype name line; without it only `C08_flatten_equiv_conv_partial` holds).
+What remains open: replacing `noMalformedMolNames` (which evaluates the tree reader) by a purely syntactic
+condition, or proving that it follows from the success of the flattened read; and the class `wellFormed`
+itself (counterexamples `C08_cx_*`). -/
+theorem C08_flatten_equiv (fs : FS) (top : Path) (st : FlatSt)
+    (hwf : wellFormed fs top = true) (hfl : flatten fs top = .ok st) (hnm : noMalformedMolNames fs top = true) :
+    ((∃ gt, readTop fs top = .ok gt) ↔ (∃ gf, readSingle st.out = .ok gf)) ∧
+    (∀ gt gf, readTop fs top = .ok gt → readSingle st.out = .ok gf → ObsEq gt gf) := by
+  constructor
+  · constructor
+    · rintro ⟨gt, hgt⟩
+      obtain ⟨gf, hgf, _⟩ := (flatten_equiv fs top st gt hwf hfl hgt).2
+      exact ⟨gf, hgf⟩
+    · rintro ⟨gf, hgf⟩
+      rcases flatten_equiv_conv fs top st gf hwf hfl hgf with h | ⟨e, he, hne⟩
+      · exact h
+      · unfold noMalformedMolNames at hnm
+        simp [he, hne] at hnm
+  · intro gt gf hgt hgf
+    obtain ⟨gf', hgf', hobs⟩ := (flatten_equiv fs top st gt hwf hfl hgt).2
+    rw [hgf] at hgf'
+    injection hgf' with e
+    rw [e]; exact hobs
+
+example : noMalformedMolNames fsGood ["run", "system.top"] = true ∧ wellFormed fsGood ["run", "system.top"] = true := by
+  decide
+
+/-- Two well-formed trees with the same flattened text read alike: how the text is cut into files and
+directories is irrelevant (the second tree is read whenever the first is, unless it stops on a malformed name
+line, and the observables agree). -/
+theorem C08_include_order_irrelevant_partial (fs1 fs2 : FS) (top1 top2 : Path) (st1 st2 : FlatSt) (g1 : Glob)
+    (hwf1 : wellFormed fs1 top1 = true) (hwf2 : wellFormed fs2 top2 = true)
+    (hfl1 : flatten fs1 top1 = .ok st1) (hfl2 : flatten fs2 top2 = .ok st2) (hsame : st1.out = st2.out)
+    (hnm : noMalformedMolNames fs2 top2 = true) (hr1 : readTop fs1 top1 = .ok g1) :
+    ∃ g2, readTop fs2 top2 = .ok g2 ∧ ObsEq g1 g2 := by
+  obtain ⟨gf, hgf, hobs1⟩ := (flatten_equiv fs1 top1 st1 g1 hwf1 hfl1 hr1).2
+  rw [hsame] at hgf
+  obtain ⟨hiff, hobs⟩ := C08_flatten_equiv fs2 top2 st2 hwf2 hfl2 hnm
+  obtain ⟨g2, hg2⟩ := hiff.mpr ⟨gf, hgf⟩
+  exact ⟨g2, hg2, hobs1.trans' (hobs g2 gf hg2 hgf).symm'⟩
+
+/-- non-vacuity: the tree `fsGood` and the one-file tree holding its flattened text are both well formed, have the
+same flattening, and neither stops on a name line -/
+example :
+    (match flatten fsGood ["run", "system.top"] with
+     | .ok st =>
+       let fs2 : FS := [(["flat.top"], st.out)]
+       wellFormed fs2 ["flat.top"] && noMalformedMolNames fs2 ["flat.top"] &&
+         (match flatten fs2 ["flat.top"] with | .ok st2 => st2.out == st.out | .error _ => false)
+     | .error _ => false) = true := by
+  decide
+
 /-- The `#error` clause on include trees, in the terms of the property statement: if, going through the tree
 as the statement prescribes (`flatten`: macros defined outside conditionals, the condition enclosing each
 line), some `#error` has an active condition (`abort`), then reading the tree does not succeed.  (Well-formed
@@ -178,18 +255,6 @@ example :
     let fs : FS := [(["t.top"], ["#define A", "#include \"i.itp\""]), (["i.itp"], ["#ifdef A", "#error A is set", "#endif"])]
     wellFormed fs ["t.top"] = true ∧ (okOf (flatten fs ["t.top"])).map (·.abort) = some true ∧
       errOf (readTop fs ["t.top"]) = some "error-directive" := by decide
-
-def fsGood : FS :=
-  [(["run", "system.top"], ["#define FLEXIBLE", "#include \"../ff/forcefield.itp\"", "#ifdef HEAVY", "#error no heavy hydrogens",
-                            "#endif", "[ moleculetype ]", "MOL1 1", "[ atoms ]", "1 CT 1 RES A1 1", "#ifdef FLEXIBLE",
-                            "[ bonds ]", "#endif", "#include \"../mols/water.itp\"", "[ system ]", "title",
-                            "[ molecules ]", "SOL 2", "MOL1 1", "SOL 1"]),
-   (["ff", "forcefield.itp"], ["[ defaults ]", "1 2 yes 0.5 0.8333", "#ifdef FLEXIBLE", "#include \"sub/flex.itp\"", "#else",
-                               "#include \"sub/rigid.itp\"", "#endif", "[ atomtypes ]", "CT 12.011 0.0 A 0.35 0.276"]),
-   (["ff", "sub", "flex.itp"], ["[ bondtypes ]", "CT CT 1 0.153 224262.4", "#include \"./common.itp\""]),
-   (["ff", "sub", "rigid.itp"], ["[ constrainttypes ]", "CT CT 1 0.153"]),
-   (["ff", "sub", "common.itp"], ["[ angletypes ]", "CT CT CT 1 112.7 488.273"]),
-   (["mols", "water.itp"], ["[ moleculetype ]", "SOL 2", "[ atoms ]", "1 OW 1 SOL OW 1", "[ settles ]", "1 1 0.1 0.16"])]
 
 /-- non-vacuity: a tree with nested directories, a conditional include with `#else`, a nested include, an inactive
 `#error`, a conditional inside a moleculetype and an include after it is well formed, is read, and the theorem's
